@@ -225,8 +225,19 @@ class SymEval:
         self.asserts = []        # assertion call nodes met
         self.next_id = 0
         self.cond_stack = []
+        self.state_hooks = []    # (save() -> data, restore(data)) of the caller's recording objects
 
     # ---- plumbing -------------------------------------------------------------------------------
+    def save_state(self):
+        return (len(self.loops), len(self.asserts), self.next_id, [sv() for sv, _ in self.state_hooks])
+
+    def restore_state(self, st):
+        del self.loops[st[0]:]
+        del self.asserts[st[1]:]
+        self.next_id = st[2]
+        for (_, rs), data in zip(self.state_hooks, st[3]):
+            rs(data)
+
     def fresh(self):
         self.next_id += 1
         return self.next_id
@@ -303,7 +314,26 @@ class SymEval:
             raise _Break()
         elif k == "Continue":
             raise _Continue()
-        elif k in ("While", "Do", "Switch", "ForRange", "Try", "OMP"):
+        elif k in ("While", "Do"):
+            first = k == "Do"
+            while True:
+                self.tick()
+                if not first:
+                    c = self.eval(n["c"], env, fn)
+                    if isinstance(c, Lin) and c.is_const():
+                        c = c.c != 0
+                    if not isinstance(c, bool):
+                        raise Unsupported("%s loop with a non-constant condition %s (line %s)" % (k.lower(), c, n.get("l")))
+                    if not c:
+                        break
+                first = False
+                try:
+                    self.exec(n["body"], env, fn)
+                except _Break:
+                    break
+                except _Continue:
+                    pass
+        elif k in ("Switch", "ForRange", "Try", "OMP"):
             raise Unsupported("%s statement at line %s" % (k, n.get("l")))
         else:
             self.eval(n, env, fn)
@@ -380,16 +410,48 @@ class SymEval:
             raise Unsupported("symbolic loop increment is not ++counter (line %s)" % n.get("l"))
         if self.loop_depth:
             raise Unsupported("nested symbolic loops (line %s)" % n.get("l"))
-        atom = ("loop", len(self.loops))
-        self.loops.append({"atom": atom, "bound": c.rhs, "line": n.get("l")})
-        env[var["d"]] = Lin.atom(atom)
+        same = [k for k, l in enumerate(self.loops) if l["bound"] == c.rhs]
+        if same:
+            atom = self.loops[same[0]]["atom"]      # a second loop over the same range: same symbolic entity i
+        else:
+            atom = ("loop", len(self.loops))
+            self.loops.append({"atom": atom, "bound": c.rhs, "line": n.get("l")})
+        i_lin = Lin.atom(atom)
+        env[var["d"]] = i_lin
+        before = {d: (list(v) if isinstance(v, list) else v) for d, v in env.items()
+                  if d != var["d"] and (isinstance(v, (Lin, bool, list)) or isinstance(v, Fraction))}
+        # dry run of one iteration: finds induction variables (outer scalars advanced by a constant per iteration)
+        saved = self.save_state()
+        trial = {d: (type(v)(v) if isinstance(v, list) else v) for d, v in env.items()}
         self.loop_depth += 1
         try:
-            self.exec(n["body"], env, fn)
+            self.exec(n["body"], trial, fn)
         except (_Break, _Continue):
             raise Unsupported("break/continue in the symbolic loop (line %s)" % n.get("l"))
         finally:
             self.loop_depth -= 1
+            self.restore_state(saved)
+        stride = {}
+        for d, v in before.items():
+            now = trial.get(d)
+            if isinstance(v, list):
+                if list(now) != v:
+                    raise Unsupported("an array declared outside the loop over the coarse entities is modified inside it (line %s)" % n.get("l"))
+            elif now != v:
+                if not (isinstance(v, Lin) and isinstance(now, Lin) and (now - v).is_const()):
+                    raise Unsupported("a variable declared outside the loop over the coarse entities is modified inside it (loop-carried state, line %s)" % n.get("l"))
+                stride[d] = (now - v).c
+        for d, k in stride.items():
+            env[d] = before[d] + i_lin * k          # value at the beginning of iteration i
+        self.loop_depth += 1
+        try:
+            self.exec(n["body"], env, fn)
+        finally:
+            self.loop_depth -= 1
+        for d, k in stride.items():
+            if env.get(d) != before[d] + i_lin * k + k:
+                raise Unsupported("induction variable does not advance uniformly (line %s)" % n.get("l"))
+            env[d] = before[d] + c.rhs * k          # value after the last iteration
         # counter is dead after the loop
         env[var["d"]] = None
 
@@ -722,6 +784,27 @@ def decision_paths(fn):
             return list(n["s"])
         return [n]
 
+    def branch(c, env, conds, on_true, on_false):
+        """split on a boolean expression built from ==, !=, !, &&, || over src[k]/trg[k]"""
+        while c.get("k") == "Cast":
+            c = c["e"]
+        k = c.get("k")
+        if k == "Un" and c.get("op") == "!":
+            return branch(c["e"], env, conds, on_false, on_true)
+        if k == "Bin" and c.get("op") == "&&":
+            return branch(c["lhs"], env, conds, lambda c2: branch(c["rhs"], env, c2, on_true, on_false), on_false)
+        if k == "Bin" and c.get("op") == "||":
+            return branch(c["lhs"], env, conds, on_true, lambda c2: branch(c["rhs"], env, c2, on_true, on_false))
+        if k == "Bin" and c.get("op") in ("==", "!="):
+            a, b = value(c["lhs"], env), value(c["rhs"], env)
+            pos_truth = c["op"] == "=="
+            on_true(conds + [(a, b, pos_truth)])
+            on_false(conds + [(a, b, not pos_truth)])
+            return
+        if k == "Bool":
+            return (on_true if c["v"] else on_false)(conds)
+        raise Unsupported("%s: condition at line %s is not built from equalities of src[k]/trg[k]" % (fn.full, c.get("l")))
+
     def walk(stmts, env, conds):
         if len(paths) > 4096:
             raise Unsupported("%s: too many paths" % fn.full)
@@ -733,17 +816,18 @@ def decision_paths(fn):
                     if v.get("init") is not None:
                         env[v["d"]] = value(v["init"], env)
             elif k == "Return":
-                paths.append((list(conds), intval(s["e"])))
+                def ret(e, cs):
+                    while e.get("k") == "Cast":
+                        e = e["e"]
+                    if e.get("k") == "Cond":
+                        branch(e["c"], env, cs, lambda c2: ret(e["then"], c2), lambda c2: ret(e["else"], c2))
+                    else:
+                        paths.append((list(cs), intval(e)))
+                ret(s["e"], conds)
                 return
             elif k == "If":
-                c = s["c"]
-                if not (c.get("k") == "Bin" and c.get("op") in ("==", "!=")):
-                    raise Unsupported("%s: condition at line %s is not an equality" % (fn.full, s.get("l")))
-                a, b = value(c["lhs"], env), value(c["rhs"], env)
-                pos_truth = c["op"] == "=="
                 rest = stmts[pos + 1:]
-                walk(flat(s["then"]) + rest, env, conds + [(a, b, pos_truth)])
-                walk(flat(s.get("else")) + rest, env, conds + [(a, b, not pos_truth)])
+                branch(s["c"], env, conds, lambda c2: walk(flat(s["then"]) + rest, env, c2), lambda c2: walk(flat(s.get("else")) + rest, env, c2))
                 return
             elif k == "Block":
                 walk(flat(s) + stmts[pos + 1:], env, conds)
